@@ -640,10 +640,6 @@ pub fn predictor_builders() -> Vec<(&'static str, Builder)> {
     v
 }
 
-pub fn other_builders() -> Vec<(&'static str, Builder)> {
-    vec![]
-}
-
 pub fn probe(seed: u64, n: usize, p: usize, counts: bool) -> Array2<f64> {
     let mut rng = Rng::seed_from_u64(seed ^ 0x9e37_79b9);
     if counts {
